@@ -651,16 +651,20 @@ fn expr_get_value<'a>(interp: &mut Interp, info: &'a mut ExprInfo, prec: i32) ->
                 }
             }
             LEFT_SHIFT => {
-                // TODO: Use checked_shl
+                if value2.int < 0 || value2.int > 63 {
+                    return molt_err!("shift count out of range");
+                }
                 value.int <<= value2.int;
             }
             RIGHT_SHIFT => {
+                if value2.int < 0 || value2.int > 63 {
+                    return molt_err!("shift count out of range");
+                }
                 // The following code is a bit tricky:  it ensures that
                 // right shifts propagate the sign bit even on machines
                 // where ">>" won't do it by default.
                 // WHD: Not sure if this is an issue in Rust.
 
-                // TODO: Use checked_shr
                 if value.int < 0 {
                     value.int = !((!value.int) >> value2.int)
                 } else {
